@@ -23,8 +23,13 @@ pub fn generate(rng: &mut Rng, seed: u64, run: u64, max_len: usize) -> Trace {
         1 => Flavor::Text,
         _ => Flavor::Sgr,
     };
-    let wl = gen::workload(rng, flavor, max_len);
-    let ops = gen_ops(rng, &wl, true);
+    let mut wl = gen::workload(rng, flavor, max_len);
+    let mut ops = gen_ops(rng, &wl, true);
+    if rng.chance(1, 8) {
+        let (bytes, lit_ops) = gen_literal_history(rng, 24);
+        wl = gen::Workload { bytes, toks: vec![] };
+        ops = lit_ops;
+    }
     let faults = if rng.chance(1, 4) {
         vec![]
     } else {
@@ -199,6 +204,12 @@ pub fn execute(t: &Trace, stats: &mut Stats, record: bool) -> Outcome {
         let hard: Vec<io::ErrorKind> = raised.iter().copied().filter(|k| *k != io::ErrorKind::Interrupted).collect();
         let mut strict = true;
         match (&r, applied) {
+            (OpResult::Panic(m), Applied::FmtFail) if m.contains("formatting trait implementation returned an error") => {
+                // std's write_fmt behaviour for a failing Display impl; see c06.rs
+                stats.probe("failing_display_panicked_like_std");
+                stopped = true;
+                strict = false;
+            }
             (OpResult::Panic(m), _) => {
                 violation = Some(viol("panic", format!("{what}: {m}")));
                 break;
